@@ -315,6 +315,13 @@ class Inliner:
         self.collect()
         if not self.helpers:
             return
+        # Class.helper(obj, ..) on a new private method that only this class defines is obj.helper(..)
+        for n in ast.walk(self.tree):
+            if isinstance(n, ast.Call) and isinstance(n.func, ast.Attribute) and isinstance(n.func.value, ast.Name) and n.args and not isinstance(n.args[0], ast.Starred):
+                h = self.helpers.get((n.func.value.id, n.func.attr))
+                if h is not None and not h.static and _simple_arg(n.args[0]) and len([k for k in self.helpers if k[1] == n.func.attr]) == 1:
+                    n.func = ast.copy_location(ast.Attribute(value=n.args[0], attr=n.func.attr, ctx=ast.Load()), n.func)
+                    n.args = n.args[1:]
         for _ in range(4):
             before = self.count
             for n in self.tree.body:
@@ -409,13 +416,19 @@ class Inliner:
             for t in st.targets:
                 if isinstance(t, ast.Name):
                     target_names.add(t.id)
+        all_targets = set()
+        if isinstance(st, ast.Assign) and call is st.value:
+            for t in st.targets:
+                for e_ in ast.walk(t):
+                    if isinstance(e_, ast.Name) and isinstance(e_.ctx, ast.Store):
+                        all_targets.add(e_.id)      # overwritten by this very statement: the old value is dead once the call starts
         mapping, pre = {}, []
         for p, x in bound.items():
             if p not in stored and _simple_arg(x):
                 mapping[p] = x
             elif isinstance(x, ast.Name) and x.id == p and (call is st.value and (isinstance(st, ast.Return) or (p in target_names and returns_name == p))):
                 pass        # `p = helper(.., p, ..)` with a helper that updates and returns its parameter p: the caller's p is that variable
-            elif isinstance(x, ast.Name) and p in stored and _dead_after(fn, st, x.id):
+            elif isinstance(x, ast.Name) and p in stored and (_dead_after(fn, st, x.id) or x.id in all_targets):
                 mapping[p] = x.id       # the helper rebinds its parameter, and the caller never reads its own variable again: one variable
             else:
                 new = p if p not in used else f"{p}__{h.fn.name.strip('_')}"
@@ -1203,6 +1216,61 @@ def canon_block(block, fn, counts):
             block[i:i + 1] = out
             counts["literal-loop-unrolled"] = counts.get("literal-loop-unrolled", 0) + 1
             continue
+        # x = x   (left over when a helper's result lands in the variable it was computed in): nothing
+        if isinstance(st, ast.Assign) and len(st.targets) == 1 and isinstance(st.targets[0], ast.Name) and isinstance(st.value, ast.Name) and st.value.id == st.targets[0].id \
+                and len(block) > 1:
+            del block[i]
+            counts["self-assignment-dropped"] = counts.get("self-assignment-dropped", 0) + 1
+            continue
+        # if A: (if B: S)      ->   if A and B: S        (neither has an else branch)
+        if isinstance(st, ast.If) and not st.orelse and len(st.body) == 1 and isinstance(st.body[0], ast.If) and not st.body[0].orelse:
+            inner_ = st.body[0]
+            vals = (st.test.values if isinstance(st.test, ast.BoolOp) and isinstance(st.test.op, ast.And) else [st.test]) + \
+                   (inner_.test.values if isinstance(inner_.test, ast.BoolOp) and isinstance(inner_.test.op, ast.And) else [inner_.test])
+            st.test = loc(ast.BoolOp(op=ast.And(), values=list(vals)), st.test)
+            st.body = inner_.body
+            counts["nested-ifs->and"] = counts.get("nested-ifs->and", 0) + 1
+            continue
+        # X = E ; if not X: X = D      ->   X = E or D
+        if isinstance(st, ast.Assign) and len(st.targets) == 1 and isinstance(st.targets[0], ast.Name) and isinstance(nxt, ast.If) and not nxt.orelse and len(nxt.body) == 1 \
+                and isinstance(nxt.test, ast.UnaryOp) and isinstance(nxt.test.op, ast.Not) and isinstance(nxt.test.operand, ast.Name) and nxt.test.operand.id == st.targets[0].id \
+                and isinstance(nxt.body[0], ast.Assign) and len(nxt.body[0].targets) == 1 and isinstance(nxt.body[0].targets[0], ast.Name) \
+                and nxt.body[0].targets[0].id == st.targets[0].id \
+                and not any(isinstance(n, ast.Name) and n.id == st.targets[0].id for n in ast.walk(nxt.body[0].value)):
+            st.value = loc(ast.BoolOp(op=ast.Or(), values=[st.value, nxt.body[0].value]), st.value)
+            del block[i + 1]
+            counts["default-if-falsy->or"] = counts.get("default-if-falsy->or", 0) + 1
+            continue
+        # single exit -> one return per branch:   if C: ..; X = A  else: ..; X = B ;  return X    ->   if C: ..; return A  else: ..; return B
+        if isinstance(st, ast.If) and st.orelse and isinstance(nxt, ast.Return) and isinstance(nxt.value, ast.Name):
+            X = nxt.value.id
+
+            def leaves(ifnode):
+                """the last statements of every branch of an if / elif / else chain, or None when a branch does not end in `X = E`"""
+                out_ = []
+                for br in (ifnode.body, ifnode.orelse):
+                    if not br:
+                        return None
+                    last_ = br[-1]
+                    if isinstance(last_, ast.If) and len(br) == 1 and last_.orelse:
+                        sub = leaves(last_)
+                        if sub is None:
+                            return None
+                        out_ += sub
+                    elif isinstance(last_, ast.Assign) and len(last_.targets) == 1 and isinstance(last_.targets[0], ast.Name) and last_.targets[0].id == X:
+                        out_.append((br, last_))
+                    else:
+                        return None
+                return out_
+            ls = leaves(st)
+            reads_elsewhere = [n for n in ast.walk(fn) if isinstance(n, ast.Name) and n.id == X and isinstance(n.ctx, ast.Load) and n is not nxt.value]
+            inside = [n for n in ast.walk(st) if isinstance(n, ast.Name) and n.id == X and isinstance(n.ctx, ast.Load)]
+            if ls and not [n for n in reads_elsewhere if n not in inside] and not inside:
+                for br, last_ in ls:
+                    br[-1] = loc(ast.Return(value=last_.value), last_)
+                del block[i + 1]
+                counts["single-exit->return-per-branch"] = counts.get("single-exit->return-per-branch", 0) + 1
+                continue
         # if C: X = A else: X = B ; if TEST(X): S      ->   if C: (if TEST(A): S) else: (if TEST(B): S)     (X used only in that test)
         if isinstance(st, ast.If) and len(st.body) == 1 and len(st.orelse) == 1 and isinstance(nxt, ast.If) and not nxt.orelse and len(nxt.body) <= 3:
             a_, b_ = st.body[0], st.orelse[0]
@@ -1627,6 +1695,85 @@ def _nested_defs_as_lambdas(fn, known_nested, counts):
             block.remove(g)
             i -= 1
             counts["nested-def->lambda"] = counts.get("nested-def->lambda", 0) + 1
+
+
+def _split_block_local_names(fn, counts):
+    """A local that is assigned in several blocks, each assignment being read only by later statements of its own block before the next
+    assignment there (`end = ..; use(end)` in the if-branch, the same again in the else-branch), is several independent temporaries under
+    one name: the second, third ... get names of their own (`end__2`), after which each is an ordinary once-assigned temporary."""
+    params = {a.arg for a in fn.args.posonlyargs + fn.args.args + fn.args.kwonlyargs} | {x.arg for x in (fn.args.vararg, fn.args.kwarg) if x}
+    stores = {}
+    for n in _walk_same_scope_fn(fn):
+        if isinstance(n, ast.Name) and isinstance(n.ctx, (ast.Store, ast.Del)):
+            stores.setdefault(n.id, []).append(n)
+    nested_use = {n.id for g in ast.walk(fn) if isinstance(g, FUNC + (ast.Lambda,)) and g is not fn for n in ast.walk(g) if isinstance(n, ast.Name)}
+    blocks = list(blocks_of(fn))
+    for name, sts in stores.items():
+        if len(sts) < 2 or name in params or name in nested_use:
+            continue
+        # every store must be the sole target of a plain assignment that is a direct statement of some block
+        ranges = []
+        ok = True
+        for holder, fld, block in blocks:
+            for i, st in enumerate(block):
+                if isinstance(st, ast.Assign) and len(st.targets) == 1 and isinstance(st.targets[0], ast.Name) and st.targets[0].id == name:
+                    if any(isinstance(n, ast.Name) and n.id == name for n in ast.walk(st.value)):
+                        ok = False
+                    j = i + 1
+                    reach = []
+                    while j < len(block):
+                        nx = block[j]
+                        if any(isinstance(n, ast.Name) and n.id == name and isinstance(n.ctx, (ast.Store, ast.Del)) for n in ast.walk(nx)):
+                            # a redefinition ends the range; loads inside that same statement (before the store) make it ambiguous
+                            if not (isinstance(nx, ast.Assign) and len(nx.targets) == 1 and isinstance(nx.targets[0], ast.Name) and nx.targets[0].id == name):
+                                ok = False
+                            break
+                        reach.append(nx)
+                        j += 1
+                    ranges.append((st, reach))
+        if not ok or len(ranges) != len(sts):
+            continue
+        covered = {id(n) for st, reach in ranges for r in reach for n in ast.walk(r) if isinstance(n, ast.Name) and n.id == name and isinstance(n.ctx, ast.Load)}
+        loads = [n for n in _walk_same_scope_fn(fn) if isinstance(n, ast.Name) and n.id == name and isinstance(n.ctx, ast.Load)]
+        if any(id(n) not in covered for n in loads):
+            continue
+        # a load must be reached by one range only (ranges nested in one another would both claim it)
+        claim = {}
+        for k, (st, reach) in enumerate(ranges):
+            for r in reach:
+                for n in ast.walk(r):
+                    if isinstance(n, ast.Name) and n.id == name and isinstance(n.ctx, ast.Load):
+                        claim.setdefault(id(n), []).append(k)
+        if any(len(v) != 1 for v in claim.values()):
+            continue
+        for k, (st, reach) in enumerate(ranges):
+            if k == 0:
+                continue
+            new = f"{name}__{k + 1}"
+            st.targets[0].id = new
+            for r in reach:
+                for n in ast.walk(r):
+                    if isinstance(n, ast.Name) and n.id == name and isinstance(n.ctx, ast.Load):
+                        n.id = new
+        counts["block-local-name-split"] = counts.get("block-local-name-split", 0) + 1
+
+
+def _star_displays(fn, counts):
+    """f(*(a, b)) is f(a, b); f(*((a, b) if c else (a,))) is f(a, b) if c else f(a) (the callee expression is a plain name or attribute chain)."""
+    class S(ast.NodeTransformer):
+        def visit_Call(self, c):
+            self.generic_visit(c)
+            if len(c.args) == 1 and isinstance(c.args[0], ast.Starred) and not c.keywords and _simple_arg(c.func):
+                v = c.args[0].value
+                if isinstance(v, (ast.Tuple, ast.List)) and not any(isinstance(e, ast.Starred) for e in v.elts):
+                    counts["f(*display)"] = counts.get("f(*display)", 0) + 1
+                    return loc(ast.Call(func=c.func, args=list(v.elts), keywords=[]), c)
+                if isinstance(v, ast.IfExp) and all(isinstance(x, (ast.Tuple, ast.List)) and not any(isinstance(e, ast.Starred) for e in x.elts) for x in (v.body, v.orelse)):
+                    counts["f(*display)"] = counts.get("f(*display)", 0) + 1
+                    return loc(ast.IfExp(test=v.test, body=ast.Call(func=copy.deepcopy(c.func), args=list(v.body.elts), keywords=[]),
+                                         orelse=ast.Call(func=copy.deepcopy(c.func), args=list(v.orelse.elts), keywords=[])), c)
+            return c
+    S().visit(fn)
 
 
 def _single_use_temps(fn, counts):
@@ -2253,8 +2400,10 @@ def normalise(tree, modname, keyword_names=frozenset(), ref=None, stats=None):
         _own_attribute_aliases(fn, tree, stats)
         _merge_accumulators(fn, stats)
         _nested_defs_as_lambdas(fn, set(ref.get("nested", {}).get(q, [])) if known else None or set(), stats) if known else None
+        _split_block_local_names(fn, stats)
         _single_use_temps(fn, stats)
         _unroll_literal_comprehensions(fn, stats)
+        _star_displays(fn, stats)
         for holder, fld, block in reversed(list(blocks_of(fn))):     # idioms that only appear once temporaries are gone
             canon_block(block, fn, stats)
     if known:
